@@ -24,8 +24,10 @@ def listener(port):
 
 
 def frames_for(k):
-    a = 0x4f0000 + k
-    return [df17(5, a, me_ident(4, 1, callsign_codes('TCP%d' % k))), short(4, enc_alt13(10000 + 1000 * k), a)]
+    # the first line of every connection belongs to an aircraft that is heard only there, once
+    a, b = 0x4f0000 + k, 0x4f1000 + k
+    return [df17(5, b, me_ident(4, 1, callsign_codes('ONE%d' % k))), df17(5, a, me_ident(4, 1, callsign_codes('TCP%d' % k))),
+            short(4, enc_alt13(10000 + 1000 * k), a)]
 
 
 def run_scenario(binary, faults, idx):
